@@ -2,12 +2,10 @@
 """Regenerates MANIFEST.json from the table below (kept next to the checks so the two stay in step)."""
 import json, sys
 
-CHECKS = {
- "C06": dict(level="exploration", engine="seqx",
-   technique="bounded-exhaustive enumeration of all value pairs/triples over a class-covering alphabet against a reference model of the documented coercion ladder, plus the algebraic laws on csvq's own answers",
-   text="Every pair (7 relational operators, 5 arithmetic operators, row values) and every triple (BETWEEN/IN/ANY/ALL/CASE/logic) over a 71-value (quick) / 94-value (thorough) alphabet spanning all value classes is evaluated on the real code through two seams (value.Compare / query.Calculate, and parsed SELECT expressions over variables) and compared with an independent reference of the documented rules; the laws of the property (a<b iff b>a, <> is NOT =, = symmetric, <= is < OR =, NULL iff non-numeric, int-op-int is int, float/integer agreement, sign and magnitude of %) are checked on csvq's own results. Exhaustive over the alphabet, nothing sampled.",
-   note="values outside the alphabet are not covered; datetime strings restricted to the documented spellings; location UTC", ref="3 C06"),
-}
+import glob, os
+CHECKS = {}
+for f in sorted(glob.glob(os.path.join(os.path.dirname(os.path.abspath(__file__)), "manifest_checks", "C*.json"))):
+    CHECKS[os.path.basename(f)[:-5]] = json.load(open(f))
 
 NOT_YET = {
 }
